@@ -1,4 +1,5 @@
 import Props.C08
+import Props.Examples
 #print axioms Webauthn.Props.C08.returned_key_decodes
 #print axioms Webauthn.Props.C08.chain
 #print axioms Webauthn.Props.C08.cross
@@ -7,3 +8,5 @@ import Props.C08
 #print axioms Webauthn.reencode_stable
 #print axioms Webauthn.Cbor.dec_wf
 #print axioms Webauthn.Cbor.dec_enc
+#print axioms Webauthn.Props.Examples.chain_example
+#print axioms Webauthn.Props.Examples.reg_accepts
